@@ -44,7 +44,7 @@ VARIABLES w,      \* window, >= 1
 
 vars == <<w, mp, xs, acc, mn, mx, out, dfn>>
 
-NOIDX == -1
+NOIDX == -1000        \* "no index" (Option::None); distinct from every real or shifted index
 
 (* ---- min_periods ------------------------------------------------------- *)
 
